@@ -15,6 +15,7 @@ import Driver.C18
 import Driver.C16
 import Driver.C17
 import Driver.C20
+import Driver.C08
 open Lean
 
 def dispatch (prop : String) (j : Json) : Except String Json :=
@@ -36,6 +37,7 @@ def dispatch (prop : String) (j : Json) : Except String Json :=
   | "C16" => Driver.C16.handle j
   | "C17" => Driver.C17.handle j
   | "C20" => Driver.C20.handle j
+  | "C08" => Driver.C08.handle j
   | _ => .error s!"unknown property {prop}"
 
 partial def loop (h : IO.FS.Stream) (out : IO.FS.Stream) : IO Unit := do
